@@ -150,6 +150,12 @@ class SFixed(Template[_FixedTemplateArg], AssignableType):
     def _adjust_val(cls, val):
         return int(val / 2**cls._exp)
 
+    @classmethod
+    @pyeval
+    def _is_exact(cls, val):
+        scaled = val / 2**cls._exp
+        return scaled == int(scaled)
+
     @pyeval
     def __repr__(self):
         val = TypeQualifier.decay(self._val).to_int() * 2**self._exp
@@ -228,6 +234,9 @@ class SFixed(Template[_FixedTemplateArg], AssignableType):
 
     def __eq__(self, other: int | float | SFixed):
         if isinstance(other, (int, float)):
+            if not self._is_exact(other):
+                # a number between two representable values differs from every value
+                return False
             return type(self)(other) == self
         else:
             assert isinstance(other, SFixed)
@@ -504,6 +513,12 @@ class UFixed(Template[_FixedTemplateArg], AssignableType):
     def _adjust_val(cls, val):
         return int(val / 2**cls._exp)
 
+    @classmethod
+    @pyeval
+    def _is_exact(cls, val):
+        scaled = val / 2**cls._exp
+        return scaled == int(scaled)
+
     @pyeval
     def __repr__(self):
         val = TypeQualifier.decay(self._val).to_int() * 2**self._exp
@@ -575,6 +590,9 @@ class UFixed(Template[_FixedTemplateArg], AssignableType):
 
     def __eq__(self, other: int | float | UFixed):
         if isinstance(other, (int, float)):
+            if not self._is_exact(other):
+                # a number between two representable values differs from every value
+                return False
             return type(self)(other) == self
         else:
             assert isinstance(other, UFixed)
